@@ -3851,7 +3851,11 @@ impl SctpInner {
         // Mark all chunks of abandoned messages in one pass.
         if !abandon_set.is_empty() {
             for record in sent_queue.values_mut() {
-                if abandon_set.contains(&(record.stream_id, record.ssn)) {
+                // Only partially reliable chunks: the set is keyed by (stream, SSN), and a reliable
+                // chunk can share both with an abandoned message (the DCEP OPEN / ACK of the same
+                // stream, SSN 0 on an unordered channel) - it must still be delivered.
+                let partially_reliable = record.max_retransmits.is_some() || record.expiry.is_some();
+                if partially_reliable && abandon_set.contains(&(record.stream_id, record.ssn)) {
                     record.abandoned = true;
                     record.needs_retransmit = false;
                     if record.in_flight {
